@@ -19,8 +19,22 @@ fn serialize(dom: &RcDom) -> Result<String, String> {
         let mut out = Vec::new();
         let h: SerializableHandle = dom.document.clone().into();
         xml5ever::serialize::serialize(&mut out, &h, Default::default()).expect("serialize failed");
+        // the same serialization into a writer that accepts only a few bytes per call must give
+        // the same bytes (one in eight serializations, chosen by content)
+        if out.len() % 8 == 3 {
+            let mut w = ChoppyWriter::new(out.len() as u64 / 8 + out.iter().map(|b| *b as u64).sum::<u64>());
+            xml5ever::serialize::serialize(&mut w, &h, Default::default()).expect("serialize into a short-writing writer failed");
+            CHOPPY_RUNS.with(|c| c.set(c.get() + 1));
+            if w.out != out {
+                panic!("short-write writer: serializing into a writer that accepts a few bytes per write() call produced {} bytes, into a Vec {} bytes (first difference at byte {})", w.out.len(), out.len(), w.out.iter().zip(out.iter()).position(|(a, b)| a != b).unwrap_or(w.out.len().min(out.len())));
+            }
+        }
         String::from_utf8(out).expect("serializer wrote invalid UTF-8")
     })
+}
+
+thread_local! {
+    static CHOPPY_RUNS: std::cell::Cell<u64> = const { std::cell::Cell::new(0) };
 }
 
 fn strip_doctype(mut t: TNode) -> TNode {
@@ -117,6 +131,7 @@ fn round_trip(input: &str) -> Option<Result<(), (String, String, String)>> {
     }
     let ser = match serialize(&d1) {
         Ok(s) => s,
+        Err(m) if m.contains("short-write writer") => return Some(Err(("serializer-short-writes".into(), m, String::new()))),
         Err(m) => return Some(Err(("serializer-panic".into(), m, String::new()))),
     };
     let d2 = parse(&ser).ok()?;
@@ -201,12 +216,13 @@ pub fn run(args: &Args) -> (Meta, Stats) {
                 check(&big, st, "scaled-up");
             }
         }
+        st.add("serializations_into_short_write_writer", CHOPPY_RUNS.with(|c| c.replace(0)));
     });
     let mut m = super::meta(
         args,
-        "T1 = xml5ever parse of a namespace-shape document (prefixes used only by attributes, same prefix on siblings, default-namespace un-declaration, nested shadowing, hostile text/attribute strings with & < > \" ' ]]> -- and CR/LF/TAB via character references) or of XML soup, or of a scaled-up document (text, attribute values, comments, PIs, CDATA and namespace URIs of up to 9000 bytes with escapable characters placed on and around power-of-two offsets up to 8192, wide tags, hundreds of siblings); bytes = xml5ever::serialize(T1); T2 = parse(bytes); T1 and T2 are compared node by node (element/attribute local names, prefixes, namespace URIs, values, text, comments, PIs; doctype excluded). Every parsed input counts as a distinct non-trivial case (hash of the input).",
+        "T1 = xml5ever parse of a namespace-shape document (prefixes used only by attributes, same prefix on siblings, default-namespace un-declaration, nested shadowing, hostile text/attribute strings with & < > \" ' ]]> -- and CR/LF/TAB via character references) or of XML soup, or of a scaled-up document (text, attribute values, comments, PIs, CDATA and namespace URIs of up to 9000 bytes with escapable characters placed on and around power-of-two offsets up to 8192, wide tags, hundreds of siblings); bytes = xml5ever::serialize(T1) (one serialization in eight is repeated into a writer that accepts 1-100 bytes per write() call and returns Interrupted now and then; the bytes must be identical); T2 = parse(bytes); T1 and T2 are compared node by node (element/attribute local names, prefixes, namespace URIs, values, text, comments, PIs; doctype excluded). Every parsed input counts as a distinct non-trivial case (hash of the input).",
         &["trees come from parsing, as the property states; RcDom is the tree representation on both sides"],
     );
-    m.require = vec![("round_trips_ok:shapes".into(), 2000), ("round_trips_ok:scaled-up".into(), 300)];
+    m.require = vec![("round_trips_ok:shapes".into(), 2000), ("round_trips_ok:scaled-up".into(), 300), ("serializations_into_short_write_writer".into(), 500)];
     (m, st)
 }
